@@ -502,6 +502,7 @@ func c12Mutate(s *c12Scn, role string, msgs []c12Msg, thorough bool) []*c12Mutan
 		add(lbl+"-line", "no-colon", []byte("#"+m.typ+m.payload+"\n"), m.bin)
 		add(lbl+"-line", "no-hash", []byte(m.typ+":"+m.payload+"\n"), m.bin)
 		add(lbl+"-line", "empty-type", line("", m.payload), m.bin)
+		add(lbl+"-line", "colon-first", []byte(":"+m.payload+"\n"), m.bin).must = i < 6 // what the splitters cut at index 0
 		add(lbl+"-line", "type-only", []byte("#"+m.typ+"\n"), m.bin)
 		add(lbl+"-line", "empty-payload", line(m.typ, ""), m.bin)
 		add(lbl+"-line", "blank", []byte("\n"))
@@ -678,11 +679,38 @@ func c12ArchiveMutants(s *c12Scn, role string, msgs []c12Msg) []*c12Mutant {
 	}
 	var out []*c12Mutant
 	for _, jm := range c12JSONMutations("ARCHIVE", hdr) {
-		if !strings.HasPrefix(jm.field, "ARCHIVE-size") && !strings.HasPrefix(jm.field, "ARCHIVE-json") && !strings.HasPrefix(jm.field, "ARCHIVE-path_name") {
+		if !strings.HasPrefix(jm.field, "ARCHIVE-size") && !strings.HasPrefix(jm.field, "ARCHIVE-json") && !strings.HasPrefix(jm.field, "ARCHIVE-path_name") &&
+			!strings.HasPrefix(jm.field, "ARCHIVE-is_dir") && !strings.HasPrefix(jm.field, "ARCHIVE-path_id") && !strings.HasPrefix(jm.field, "ARCHIVE-perm") {
 			continue
 		}
 		ns := append([]byte(c12B64z(jm.doc)), stream[nl:]...)
 		out = append(out, &c12Mutant{scn: s, role: role, idx: first, field: jm.field, val: jm.val, whole: rebuild(ns)})
+	}
+	// entry kinds the honest sender never produces: a DIRECTORY that announces a size (the writer then has a
+	// byte count but no file), a file with a non-positive or absurd size, an entry under a path id that was
+	// never announced, a name the destination refuses - each followed by the recorded data
+	var hm map[string]json.RawMessage
+	if json.Unmarshal(hdr, &hm) == nil {
+		combo := func(val string, kv ...string) {
+			m := map[string]json.RawMessage{}
+			for k, v := range hm {
+				m[k] = v
+			}
+			for i := 0; i+1 < len(kv); i += 2 {
+				m[kv[i]] = json.RawMessage(kv[i+1])
+			}
+			doc, _ := json.Marshal(m)
+			ns := append([]byte(c12B64z(doc)), stream[nl:]...)
+			out = append(out, &c12Mutant{scn: s, role: role, idx: first, field: "ARCHIVE-entry", val: val, whole: rebuild(ns), must: true})
+		}
+		for _, sz := range []c12Val{{"5", "5"}, {"1", "1"}, {"2^62", "4611686018427387904"}, {"-1", "-1"}, {"0", "0"}} {
+			combo("dir+size="+sz.class, "is_dir", "true", "size", sz.text)
+			combo("file+size="+sz.class, "is_dir", "false", "size", sz.text)
+		}
+		combo("unknown-path-id", "path_id", "77")
+		combo("name-dotdot", "path_name", `["d","..",".."]`)
+		combo("name-root-only", "path_name", `["d"]`, "is_dir", "false", "size", "3")
+		combo("dir-onto-nothing+size", "path_name", `["d","new","deeper"]`, "is_dir", "true", "size", "9")
 	}
 	no := append([]byte(strings.Repeat("A", 4<<20)), stream[nl:]...) // 4 MiB header line
 	out = append(out, &c12Mutant{scn: s, role: role, idx: first, field: "ARCHIVE-header", val: "long-4MB", whole: rebuild(no)})
@@ -798,6 +826,12 @@ type c12Job struct {
 	RewriteTyp string `json:"rewrite_typ"` // CFG (server -> client) or ACT (client -> server)
 	RewriteKey string `json:"rewrite_key"`
 	RewriteRaw string `json:"rewrite_raw"` // JSON text of the new value
+	// role "bufevo": acknowledgement sequences for the real pipelineRecvAck goroutine
+	Evo []c12EvoJob `json:"evo"`
+	// role "relay": a real relay between a scripted client and a scripted server during its handshake
+	RelayClient [][]byte `json:"relay_client"` // what the client side sends while the relay waits for the ACT
+	RelayServer [][]byte `json:"relay_server"` // what the server side sends afterwards (the relay waits for the CFG)
+	WinServer   bool     `json:"win_server"`
 }
 
 func c12SelfHWM() int64 {
@@ -826,6 +860,11 @@ func c12Child(jobPath string) {
 	t0 := time.Now()
 	if job.Role == "server" {
 		res = c12ChildServer(&job, wire)
+	} else if job.Role == "relay" {
+		res = c12ChildRelay(&job)
+	} else if job.Role == "bufevo" {
+		c12ChildEvo(&job)
+		return
 	} else if job.Role == "handshake" {
 		res = c12ChildHandshake(&job)
 	} else {
